@@ -16,16 +16,29 @@ Theorem C13_redirect_requeues : forall st s sv f inq' mid slot ty rsp p st1 s2,
   let stm := mark_moved st0 mid slot in
   frag_done st0 mid slot = false -> (ty = RspMoved \/ ty = RspAsk) ->
   find_pool stm (parse_moved ty rsp) = Some p -> pool_get stm p = (st1, Some s2) ->
-  on_reply st s ty rsp = ROk (enqueue_out st1 s2 f) /\
-  clients (enqueue_out st1 s2 f) = clients st /\
-  (forall x, msg_done (enqueue_out st1 s2 f) x = msg_done st x /\ msg_rsp (enqueue_out st1 s2 f) x = msg_rsp st x).
+  let st2 := if N.eqb ty RspAsk then enqueue_out st1 s2 (FProbe true) else st1 in
+  on_reply st s ty rsp = ROk (enqueue_out st2 s2 f) /\
+  clients (enqueue_out st2 s2 f) = clients st /\
+  (forall x, msg_done (enqueue_out st2 s2 f) x = msg_done st x /\ msg_rsp (enqueue_out st2 s2 f) x = msg_rsp st x).
 Proof. exact redirect_requeues. Qed.
 Print Assumptions C13_redirect_requeues.
 
-Theorem C13_requeued_at_tail : forall st s f sv, lookup s (servers st) = Some sv ->
-  exists sv', lookup s (servers (enqueue_out st s f)) = Some sv' /\ ps_outq sv' = ps_outq sv ++ [f] /\ ps_got sv' = ps_got sv.
-Proof. exact enqueue_out_tail. Qed.
-Print Assumptions C13_requeued_at_tail.
+(* what is queued on the named node's connection: the request alone for MOVED; ASKING and then the
+   request, next to each other at the tail, for ASK (FProbe true is the ownerless ASKING command: its
+   +OK is consumed like a topology probe's reply and reaches no client) *)
+Theorem C13_redirect_queue : forall st1 s2 f ty sv, lookup s2 (servers st1) = Some sv ->
+  let st2 := if N.eqb ty RspAsk then enqueue_out st1 s2 (FProbe true) else st1 in
+  exists sv', lookup s2 (servers (enqueue_out st2 s2 f)) = Some sv' /\
+              ps_outq sv' = ps_outq sv ++ (if N.eqb ty RspAsk then [FProbe true; f] else [f]) /\
+              ps_got sv' = ps_got sv /\ ps_inq sv' = ps_inq sv.
+Proof. exact redirect_queue. Qed.
+Print Assumptions C13_redirect_queue.
+
+(* ... and the bytes the next write round sends for that pair: the ASKING command, then the request *)
+Theorem C13_asking_then_request : forall st f,
+  concat (map (frag_req st) [FProbe true; f]) = ReqAsking ++ frag_req st f.
+Proof. exact asking_wire. Qed.
+Print Assumptions C13_asking_then_request.
 
 (* the final node's reply is delivered once, in pipeline order: C01's theorem covers every history
    that contains redirects; and every event terminates (each step is a total function; its loops run
@@ -36,11 +49,9 @@ Theorem C13_order_kept : forall cfg pools slots evs st cid cl,
 Proof. intros. destruct (replies_in_order _ _ _ _ _ _ _ H H0) as (A & B & _). auto. Qed.
 Print Assumptions C13_order_kept.
 
-(* MOVED end to end on a concrete history: the client sees only the final node's reply.
-   REFUTED for ASK (known finding ask-redirect-without-asking): the request is re-sent to the named
-   node WITHOUT a preceding ASKING command - the bytes the importing node receives are the bare
-   request; a real importing node answers -MOVED back to the source and the two bounce forever.
-   The repair needs a synthetic ASKING fragment whose +OK is swallowed; not a small patch. *)
+(* MOVED and ASK end to end on concrete histories: the client sees only the final node's reply; the
+   importing node of an ASK redirect receives ASKING immediately followed by the request, and its +OK
+   for ASKING reaches no client. *)
 Definition w_srv_got (r : result pst) (s : nat) : bytes :=
   match r with ROk st => match lookup s (servers st) with Some sv => ps_got sv | None => [] end | _ => bs "!" end.
 
@@ -51,10 +62,13 @@ Example C13_moved_witness :
   w_srv_got (run (init_state w_cfg w2_pools w2_slots) evs) 1 = enc_request [bs "get"; bs "a"].
 Proof. cbv zeta. split; vm_compute; reflexivity. Qed.
 
-Example C13_ask_refuted :
+Example C13_ask_witness :
   let evs := [EConnect 0 true; EClientData 0 (enc_request [bs "get"; bs "a"]) []; ETasks [];
               EServerData 0 (bs "-ASK 15495 n1:1" ++ crlf); ETasks []] in
-  (* what the importing node n1 receives: the bare request, no "ASKING" before it *)
-  w_srv_got (run (init_state w_cfg w2_pools w2_slots) evs) 1 = enc_request [bs "get"; bs "a"] /\
-  w_srv_got (run (init_state w_cfg w2_pools w2_slots) evs) 1 <> enc_request [bs "ASKING"] ++ enc_request [bs "get"; bs "a"].
-Proof. cbv zeta. split; [vm_compute; reflexivity | vm_compute; discriminate]. Qed.
+  let evs2 := evs ++ [EServerData 1 (bs "+OK" ++ crlf); EServerData 1 (enc_bulk (bs "A"))] in
+  (* what the importing node n1 receives *)
+  w_srv_got (run (init_state w_cfg w2_pools w2_slots) evs) 1 = enc_request [bs "ASKING"] ++ enc_request [bs "get"; bs "a"] /\
+  (* nothing reaches the client before the final reply, and then exactly that reply *)
+  w_got (run (init_state w_cfg w2_pools w2_slots) evs) 0 = [] /\
+  w_got (run (init_state w_cfg w2_pools w2_slots) evs2) 0 = enc_bulk (bs "A").
+Proof. cbv zeta. repeat split; vm_compute; reflexivity. Qed.
